@@ -10,6 +10,10 @@ package main
 //                           whose context is cancelled at a random instant around its
 //                           cond.Wait must return; answer "stuck=<k>", specification "stuck=0"
 //   !race-store iters=<n>   same with a Store racing against the wait: the waiter must get the wire
+//   !race-latectx k=<k>     deterministic form of the cancel race: the context becomes done right
+//                           after the waiter's k-th ctx.Err() call and the waiter is delayed there
+//   !race-cleanup ...       idle cleanup whose first Close is slow, racing with Store: no wire may be
+//                           lost (neither held, idle nor closed), no idle wire closed, open <= cap
 
 import (
 	"bytes"
@@ -101,37 +105,37 @@ func acquireShape() map[string]string {
 		}
 		if setup != nil {
 			out["setup-cond"] = render(fset, setup.Cond)
-			// the goroutine inside: find the Broadcast call and its neighbours
-			var goStmt *ast.GoStmt
-			ast.Inspect(setup.Body, func(n ast.Node) bool {
-				if g, ok := n.(*ast.GoStmt); ok && goStmt == nil {
-					goStmt = g
-				}
-				return true
-			})
-			out["broadcast-under-mutex"] = "unknown:no goroutine"
-			if goStmt != nil {
-				if fl, ok := goStmt.Call.Fun.(*ast.FuncLit); ok {
-					out["watcher-body"] = render(fset, fl.Body)
-					ast.Inspect(fl.Body, func(n ast.Node) bool {
-						blk, ok := n.(*ast.BlockStmt)
-						if !ok {
-							return true
-						}
-						for i, st := range blk.List {
-							if render(fset, st) == "p.cond.Broadcast()" {
-								locked := i > 0 && render(fset, blk.List[i-1]) == "p.cond.L.Lock()" &&
-									i+1 < len(blk.List) && render(fset, blk.List[i+1]) == "p.cond.L.Unlock()"
-								out["broadcast-under-mutex"] = fmt.Sprint(locked)
-							}
-						}
-						return true
-					})
-				}
-			}
 		} else {
 			out["setup-cond"] = "unknown:no set-up if before the loop"
-			out["broadcast-under-mutex"] = "unknown:no set-up"
+		}
+		// every Broadcast reachable from Acquire (the cancellation path) must be a call
+		// statement bracketed by p.cond.L.Lock() / p.cond.L.Unlock(); a method value such as
+		// context.AfterFunc(ctx, p.cond.Broadcast) is a broadcast without the mutex
+		refs, locked := 0, 0
+		ast.Inspect(fd.Body, func(n ast.Node) bool {
+			if sel, ok := n.(*ast.SelectorExpr); ok && render(fset, sel) == "p.cond.Broadcast" {
+				refs++
+			}
+			blk, ok := n.(*ast.BlockStmt)
+			if !ok {
+				return true
+			}
+			for i, st := range blk.List {
+				if render(fset, st) == "p.cond.Broadcast()" &&
+					i > 0 && render(fset, blk.List[i-1]) == "p.cond.L.Lock()" &&
+					i+1 < len(blk.List) && render(fset, blk.List[i+1]) == "p.cond.L.Unlock()" {
+					locked++
+				}
+			}
+			return true
+		})
+		switch {
+		case refs == 0:
+			out["broadcast-under-mutex"] = "unknown:no broadcast in Acquire"
+		case refs == locked:
+			out["broadcast-under-mutex"] = "true"
+		default:
+			out["broadcast-under-mutex"] = "false"
 		}
 	}
 	return out
@@ -147,8 +151,166 @@ func runRace(c *Ctx) {
 		c.Emit("shape "+k, v, true)
 		c.Hit("shape")
 	}
+	for k := 1; k <= 3; k++ {
+		raceLateCtx(c, k)
+	}
+	for _, v := range [][3]int{{4, 0, 2}, {5, 1, 3}, {6, 2, 4}, {3, 0, 3}} {
+		raceCleanup(c, v[0], v[1], v[2])
+	}
 	raceCancel(c, c.N)
 	raceStore(c, c.N/4)
+}
+
+// lateCtx forces one schedule deterministically: its k-th Err() call answers "not done",
+// then the context becomes done (Done() is closed) and the calling goroutine is delayed
+// before it goes on. With k = 2 this is the wait-loop check of an Acquire on an exhausted
+// pool: the cancellation lands between the condition check and cond.Wait.
+type lateCtx struct {
+	context.Context
+	done  chan struct{}
+	calls atomic.Int32
+	k     int32
+}
+
+func (c *lateCtx) Deadline() (time.Time, bool) { return time.Now().Add(time.Hour), true }
+func (c *lateCtx) Done() <-chan struct{}       { return c.done }
+func (c *lateCtx) Err() error {
+	n := c.calls.Add(1)
+	switch {
+	case n < c.k:
+		return nil
+	case n == c.k:
+		close(c.done)
+		time.Sleep(150 * time.Millisecond)
+		return nil
+	}
+	return context.DeadlineExceeded
+}
+
+// raceLateCtx: exhausted pool, nobody ever stores; the waiter's context becomes done right
+// after its k-th look at ctx.Err(). It must return the dead wire of its context.
+func raceLateCtx(c *Ctx, k int) {
+	mk := func(ctx context.Context) *rueidis.VerifWire { return rueidis.VerifNewWire(0, nil, false) }
+	vp := rueidis.VerifNewPool(1, 0, 0, mk)
+	vp.Acquire(context.Background())
+	ctx := &lateCtx{Context: context.Background(), done: make(chan struct{}), k: int32(k)}
+	ret := make(chan rueidis.VerifHandle, 1)
+	go func() { ret <- vp.Acquire(ctx) }()
+	if k >= 3 {
+		// the window on a later loop iteration: once the waiter is parked, another waiter's
+		// cancellation broadcast wakes it up spuriously; its next look at ctx.Err() is the late one
+		waitFor := func(n int) {
+			for i := 0; i < 20000 && vp.Waiters() < n; i++ {
+				time.Sleep(100 * time.Microsecond)
+			}
+		}
+		waitFor(1)
+		ctx2, cancel2 := context.WithCancel(context.Background())
+		other := make(chan rueidis.VerifHandle, 1)
+		go func() { other <- vp.Acquire(ctx2) }()
+		waitFor(2)
+		cancel2()
+		// the other waiter's hand-out is deliberately not stored: Store signals the condition
+		// variable and would hide a lost wake-up of the waiter under test
+		select {
+		case <-other:
+		case <-time.After(2 * time.Second):
+		}
+	}
+	op := fmt.Sprintf("!race-latectx k=%d", k)
+	ans := ""
+	select {
+	case h := <-ret:
+		ans = "returned " + h.Kind()
+		vp.Store(h)
+	case <-time.After(2 * time.Second):
+		ans = "stuck"
+		c.Fail("pool:lost-wakeup:latectx", op, "the waiter is still in cond.Wait 2s after its context became done between the wait-loop check and cond.Wait (lost wake-up)")
+	}
+	vp.Close()
+	if ans == "stuck" {
+		<-ret
+	}
+	c.Emit(op, ans, true)
+	c.Hit("race-latectx")
+}
+
+// raceCleanup: idle cleanup with a slow Close racing with Store. `capN` wires are acquired,
+// `idleN` of them stored (idle), the first wire the cleanup closes is gated; while it is
+// "closing" the remaining holders store their wires. Afterwards every wire ever made must be
+// idle-and-open or closed, no idle wire may be closed, and open wires <= cap.
+func raceCleanup(c *Ctx, capN, minN, idleN int) {
+	var wires []*rueidis.VerifWire
+	mk := func(ctx context.Context) *rueidis.VerifWire {
+		w := rueidis.VerifNewWire(len(wires), nil, false)
+		wires = append(wires, w)
+		return w
+	}
+	vp := rueidis.VerifNewPool(capN, minN, time.Hour, mk)
+	hs := make([]rueidis.VerifHandle, capN)
+	for i := range hs {
+		hs[i] = vp.Acquire(context.Background())
+	}
+	for i := 0; i < idleN; i++ {
+		vp.Store(hs[i])
+	}
+	entered, gate := make(chan struct{}), make(chan struct{})
+	// removeIdleConns keeps list[:min] and closes list[min:] in order: gate the first of those
+	if minN < idleN {
+		wires[minN].GateClose(entered, gate)
+	}
+	cleaned := make(chan struct{})
+	go func() { vp.RemoveIdle(); close(cleaned) }()
+	if minN < idleN {
+		select {
+		case <-entered:
+		case <-time.After(2 * time.Second):
+		}
+	}
+	stored := make(chan struct{})
+	go func() {
+		for i := idleN; i < capN; i++ {
+			vp.Store(hs[i])
+		}
+		close(stored)
+	}()
+	select {
+	case <-stored:
+	case <-time.After(60 * time.Millisecond): // the stores wait for the pool mutex while the cleanup closes under it
+	}
+	close(gate)
+	<-stored
+	<-cleaned
+	snap := vp.Snapshot()
+	idle := map[int]bool{}
+	for _, id := range snap.List {
+		idle[id] = true
+	}
+	lost, idleClosed, open := 0, 0, 0
+	for _, w := range wires {
+		closed := w.Closes() > 0
+		if !closed {
+			open++
+		}
+		if !closed && !idle[w.ID] {
+			lost++ // nobody holds it, it is not in the pool, and nobody closed it
+		}
+		if closed && idle[w.ID] {
+			idleClosed++
+		}
+	}
+	over := 0
+	if open > capN {
+		over = open - capN
+	}
+	op := fmt.Sprintf("!race-cleanup cap=%d min=%d idle=%d", capN, minN, idleN)
+	ans := fmt.Sprintf("lost=%d idleclosed=%d over=%d size-idle=%d", lost, idleClosed, over, snap.Size-len(snap.List))
+	c.Emit(op, ans, true)
+	c.Hit("race-cleanup")
+	if lost+idleClosed+over > 0 || snap.Size != len(snap.List) {
+		c.Fail("pool:cleanup-vs-store", op, fmt.Sprintf("idle cleanup with a slow Close racing with Store: %d wires neither held, idle nor closed; %d idle wires closed; %d open wires above cap; size=%d idle=%d", lost, idleClosed, over, snap.Size, len(snap.List)))
+	}
+	vp.Close()
 }
 
 func spin(n int) {
